@@ -5,8 +5,10 @@ From MP Require Import Model.Sched.
 Import ListNotations.
 
 Definition Mz : Z := (2 ^ 61 - 1)%Z.
+(* probe commands whose Id is 3 mod 7 return None (observed as -1); a consumed None counts as 5 *)
 Definition Fh (c : cmd) (vs : list Z) : Z :=
-  ((Z.of_nat (nm c) + 1 + 31 * fold_left (fun acc v => (acc * 1000003 + v) mod Mz) vs 0) mod Mz)%Z.
+  if Nat.eqb (Nat.modulo (nm c) 7) 3 then (-1)%Z else
+  ((Z.of_nat (nm c) + 1 + 31 * fold_left (fun acc v => (acc * 1000003 + (if Z.eqb v (-1) then 5 else v)) mod Mz) vs 0) mod Mz)%Z.
 
 Record obs := {
   o_tag : nat;                 (* 0 ran, 1 ResultDoesNotExist, 2 RecursiveModelStructure, 3 anything else *)
